@@ -210,3 +210,53 @@ def local_of_operand(op):
     if op["k"] in ("copy", "move") and not op["place"]["p"]:
         return op["place"]["l"]
     return None
+
+
+# -------------------------------------------------------------------- ordered mutations of a local (vector building)
+CONTENT_NEUTRAL = {"reserve", "reserve_exact", "shrink_to_fit", "shrink_to", "try_reserve", "try_reserve_exact"}
+APPENDERS = {"extend_from_slice", "extend", "push", "append", "push_str", "insert", "extend_from_within"}
+
+
+def vec_build(prov, fn, l):
+    """for a local vector/string: (origin of its initial value, [(block, call, name, arg origins)]) of the
+    mutating calls that receive `&mut local`, in execution order; None when the mutations are not
+    totally ordered by dominance (branches/loops) — callers then fall back or fail closed"""
+    cfg = cfg_of(fn)
+    muts = prov.mutations(fn, l)
+    items = []
+    for bid, t, ai in muts:
+        if ai != 0:
+            return None
+        if t["callee"]["name"] in CONTENT_NEUTRAL:
+            continue
+        items.append((bid, t))
+    # total order by dominance
+    ordered = []
+    rest = list(items)
+    while rest:
+        first = [x for x in rest if all(x is y or cfg.dominates(x[0], y[0]) for y in rest)]
+        if len(first) != 1:
+            return None
+        ordered.append(first[0])
+        rest.remove(first[0])
+    # no cycles through a mutation (not inside a loop)
+    for bid, t in ordered:
+        if bid in cfg.reachable_from(bid):
+            return None
+    whole = [d for d in prov.defs(fn).get(l, []) if not d[3]["dst"]["p"]]
+    if len(whole) != 1:
+        return None
+    kind, db, di, x = whole[0]
+    init = prov.rvalue(fn, x["rv"], (db, di)) if kind == "assign" else prov.call_origin(fn, x, db)
+    out = []
+    for bid, t in ordered:
+        args = prov.call_args(fn, t, bid)
+        out.append((bid, t, t["callee"]["name"], args[1:]))
+    return init, out
+
+
+def diverges(fn):
+    """no return block is reachable from the entry"""
+    cfg = cfg_of(fn)
+    live = cfg.live_nodes()
+    return not any(b in live for b in cfg.return_blocks())
